@@ -40,6 +40,9 @@ def body_for(kind, v, w=None, k=1):
     if kind == "condinc":
         return ("fn", [], "int", [("if", ("bin", "<", V(v), I(5)), [("decl", v, None, ("bin", "+", V(v), I(k)), ("modify",))],
                                   [("decl", v, None, I(0), ("modify",))]), ("return", V(v))])
+    if kind == "localcopy":
+        # the local-copy idiom: the right-hand side reads the CAPTURED variable, the plain assignment creates a local
+        return ("fn", [], "int", [("decl", v, None, ("bin", "+", V(v), I(k)), ()), ("decl", v, None, ("bin", "*", V(v), I(2)), ()), ("return", V(v))])
     if kind == "mcallarg":
         # the captured variable is used only as an argument of a method call
         return ("fn", [], "int", [("decl", "box", ("list", "int"), ("list", [I(k)]), ()), ("expr", ("mcall", V("box"), "push", [V(v)])),
@@ -77,7 +80,7 @@ def cases(draw):
             g.label("factory-local-shadows-module-var")
         shape = g.weighted([(3, "single"), (3, "pair"), (2, "nested"), (1, "mixed")])
         if shape == "single":
-            kind = g.choice(["inc", "read", "condinc", "shadow", "loopsum", "mcallarg"])
+            kind = g.choice(["inc", "read", "condinc", "shadow", "loopsum", "mcallarg", "localcopy"])
             body = [("decl", local, None, V("init"), ()), ("return", body_for(kind, local, k=g.int(1, 3)))]
             facts.append((fname, "int"))
             stmts.append(("decl", fname, None, ("fn", [("init", "int")], FI, body), ()))
@@ -104,7 +107,7 @@ def cases(draw):
     nm = g.int(1, 4)
     for ci in range(nm):
         v = g.choice(mvars)
-        kind = g.choice(["read", "inc", "set", "shadow", "pure", "condinc", "read2", "loopsum", "mcallarg"])
+        kind = g.choice(["read", "inc", "set", "shadow", "pure", "condinc", "read2", "loopsum", "mcallarg", "localcopy"])
         name = "m%d" % ci
         if kind == "read2":
             stmts.append(("decl", name, None, body_for(kind, v, g.choice(mvars)), ()))
